@@ -83,7 +83,7 @@ fn main() {
         cfg.set_exit(b0).unwrap();
         let f = Function::new(0, cfg);
         let map = constants(&f).unwrap();
-        let loc = ProgramLocation::new(Some(0), FunctionLocation::Instruction(0, 1));
+        let loc = ProgramLocation::new(None, FunctionLocation::Instruction(0, 1));
         map.get(&loc).cloned()
     };
     let a = mk(5);
